@@ -78,13 +78,18 @@ def one_case(ctx: Ctx, stream: str, i: int) -> None:
     from furax._base.core import CompositionOperator
     rng = ctx.rng(stream, i)
     kind = rng.choice(KINDS)
-    shape = rng.choice([(2,), (3,), (2, 2), (1,)])
+    shape = rng.choice([(2,), (3,), (2, 2), (1,), (2, 3), (3, 2)])
     n = int(np.prod(shape))
     cls = StokesPyTree.class_for(kind)
     st = cls.structure_for(shape, jnp.float32)
     # angles: any sign and magnitude, array broadcastable to the sample shape
     def angles():
-        ash = rng.choice([shape, shape[-1:], (1,)])
+        # every shape NumPy broadcasts to the sample shape: the full shape, the trailing axis, a single value, and — for
+        # two-dimensional samples — one angle per row (n, 1) or a row vector (1, m)
+        choices = [shape, shape[-1:], (1,)]
+        if len(shape) == 2:
+            choices += [(shape[0], 1), (1, shape[1]), (shape[0], 1)]
+        ash = rng.choice(choices)
         vals = [rng.choice([0.0, 0.3, -0.7, 1.1, 2.5, -4.0, 7.3, 0.785398, 1.570796, -12.5, 100.25])
                 for _ in range(int(np.prod(ash)))]
         return np.asarray(vals, dtype=np.float32).reshape(ash)
